@@ -167,35 +167,44 @@ Definition referenced_crate (ws : list src_info) (s : src_info) (c n : str) : op
             | None => match ts with d :: _ => Some d | [] => None end
             end
   end.
+(* every annotated type of crate d whose Rust name is n is generated under ONE name (renamed_in).  Typeshare knows
+   a type by its bare name: two types of one crate with the same Rust name (in two modules) and different
+   generated names leave "the name crate d generates n under" undetermined - the tool rewrites the reference and
+   the import alike, to the name its rename table holds last. *)
+Definition one_generated_name (ws : list src_info) (d n : str) : bool :=
+  forallb (fun it => negb (str_eqb (original (item_id it)) n) || str_eqb (renamed (item_id it)) (renamed_in ws d n)) (type_items ws d).
 (* no other crate generates a type called n (as original or as generated name) *)
 Definition unique_name (ws : list src_info) (d n : str) : bool :=
   forallb (fun k => str_eqb k d || negb (mem_str n (tdefs_original ws k) || mem_str n (tdefs_renamed ws k))) (generated_crates ws).
 
 (* The domain of the completeness theorem: the reference of file s (crate c) to the type n of crate d is
    (a) named: introduced by a plain / grouped / nested `use d::..::n` or a path d::..::n, nothing else in the file
-       brings in n from elsewhere, the target not serde-renamed, its name unique across crates, d and n outside
-       the ignore lists, n not type-mapped and not the generated name of a type of the file itself; or
+       brings in n from elsewhere, crate d generates its n under one name (serde-renamed or not: the import must
+       name the GENERATED name, renamed_in), the name is unique across crates, d and n outside the ignore lists,
+       n not type-mapped and not the generated name of a type of the file itself; or
    (b) covered by a glob: the file says `use d::*;` or a nested `use d::m::*;` / `use d::{m::*, ..}` with d
        outside the ignore lists (and `*` itself not a key of the type mappings, which would remove every glob
-       candidate).  Such a glob imports EVERY type of crate d under its generated name, so (b) needs none of
-       the other conditions of (a): the target may be renamed, ambiguous, not unique. *)
+       candidate; and `*` not the Rust name of a type of d - no identifier is, this only excludes syntax trees no
+       parser produces).  Such a glob imports EVERY type of crate d under its generated name, so (b) needs none of
+       the other conditions of (a): the target may be ambiguous, not unique. *)
 Definition GLOB14 : str := lit "*".
 Definition dom_named (ws : list src_info) (mapped : list str) (s : src_info) (c d n : str) : bool :=
   introduces (si_file s) d n && unambiguous (si_file s) d n &&
-  str_eqb (renamed_in ws d n) n && unique_name ws d n &&
+  one_generated_name ws d n && unique_name ws d n &&
   crate_ok d && type_ok n && negb (mem_str n mapped) &&
   negb (mem_str n (map (fun it => renamed (item_id it)) (filter is_type14 (si_items s)))).
-Definition dom_glob (mapped : list str) (s : src_info) (d : str) : bool :=
-  glob_introduces (si_file s) d && crate_ok d && negb (mem_str GLOB14 mapped).
+Definition dom_glob (ws : list src_info) (mapped : list str) (s : src_info) (d : str) : bool :=
+  glob_introduces (si_file s) d && crate_ok d && negb (mem_str GLOB14 mapped) && negb (mem_str GLOB14 (tdefs_original ws d)).
 Definition dom_C14 (ws : list src_info) (mapped : list str) (s : src_info) (c d n : str) : bool :=
-  dom_named ws mapped s c d n || dom_glob mapped s d.
+  dom_named ws mapped s c d n || dom_glob ws mapped s d.
 
 (* finding classes of the unchanged tree for a reference that is NOT imported.  A reference covered by a glob
    import is in no class: since the /repo fix of findings C14-glob / C14-glob-order `use d::*;` imports every
-   type of d (renamed and same-named ones included), so a miss there is a new violation. *)
+   type of d (renamed and same-named ones included), so a miss there is a new violation.  A serde-renamed target
+   is in no class either: since the /repo fix of finding C14-renamed-import (reconcile.rs:71) the import set is
+   put back with the generated names, so `use d::N;` imports what d's file defines N under. *)
 Definition known_C14 (ws : list src_info) (mapped : list str) (s : src_info) (c d n : str) : option string :=
-  if dom_glob mapped s d then None
-  else if negb (str_eqb (renamed_in ws d n) n) then cls14 "C14-renamed-import"
+  if dom_glob ws mapped s d then None
   else if negb (unique_name ws d n) then cls14 "C14-same-name"
   else None.
 
